@@ -7,6 +7,7 @@ import SmppVerif.Model.Gsm
 import SmppVerif.Model.Packed
 import SmppVerif.Model.Time
 import SmppVerif.Model.Receipt
+import SmppVerif.Model.Split
 
 namespace SmppVerif.Driver
 open SmppVerif SmppVerif.Wire
@@ -46,6 +47,14 @@ def parseDate (s : String) : Option (Option (Nat × Nat × Nat × Nat × Nat)) :
   match (s.splitOn ".").mapM (·.toNat?) with
   | some [y, mo, d, h, mi] => some (some (y, mo, d, h, mi))
   | _ => none
+
+def parseEnc (s : String) : Option Split.Enc :=
+  match s with
+  | "auto" => some .auto | "gsm" => some .gsm | "other" => some .other | _ => none
+
+def resParts : Except Exc (List (List Nat)) → String
+  | .ok ps => "ok " ++ "|".intercalate (ps.map showHex)
+  | .error e => showExc e
 
 def step (line : String) : String :=
   let ws := (line.trimAscii.toString.splitOn " ").filter (· ≠ "")
@@ -97,6 +106,22 @@ def step (line : String) : String :=
     | some id, some sub, some dlvrd, some sd, some dd, some stat, some err, some text =>
       "ok " ++ showNats (Receipt.build ⟨id, sub, dlvrd, sd, dd, stat, err, text⟩)
     | _, _, _, _, _, _, _, _ => "bad-op"
+  | ["u16.enc", m, t] =>
+    match parseMode m, parseNats t with
+    | some m, some t => resHex (Utf16.encode m t)
+    | _, _ => "bad-op"
+  | ["u16.dec", m, b] =>
+    match parseMode m, parseHex b with
+    | some m, some b => resNats (Utf16.decode m b)
+    | _, _ => "bad-op"
+  | ["split.sar", e, t] =>
+    match parseEnc e, parseNats t with
+    | some e, some t => resParts (Split.splitSms e t)
+    | _, _ => "bad-op"
+  | ["split.udh", e, r, t] =>
+    match parseEnc e, r.toNat?, parseNats t with
+    | some e, some r, some t => resParts (Split.splitSmsUdh e r t)
+    | _, _, _ => "bad-op"
   | _ => "bad-op"
 
 partial def loop (h : IO.FS.Stream) (out : IO.FS.Stream) : IO Unit := do
